@@ -122,78 +122,17 @@ func handleUIDSearch(deps ServerDeps, conn net.Conn, tag string, parts []string,
 		return
 	}
 
-	// Get search criteria (everything after "UID SEARCH")
+	// Get search criteria (everything after "UID SEARCH") and evaluate them with the evaluator SEARCH uses;
+	// keys it does not know are skipped, as before
 	searchCriteria := strings.Join(parts[3:], " ")
-
-	// Query all messages in mailbox with UIDs
-	rows, err := targetDB.Query(`
-		SELECT mm.message_id, mm.uid, mm.flags, mm.internal_date,
-			(SELECT COUNT(*) FROM message_mailbox mm2
-			 WHERE mm2.mailbox_id = mm.mailbox_id AND mm2.uid <= mm.uid) as seq_num
-		FROM message_mailbox mm
-		WHERE mm.mailbox_id = ?
-		ORDER BY mm.uid
-	`, state.SelectedMailboxID)
-
+	_, uids, err := message.EvaluateSearch(deps, targetDB, state.SelectedMailboxID, searchCriteria, "US-ASCII")
 	if err != nil {
 		deps.SendResponse(conn, fmt.Sprintf("%s NO UID SEARCH failed: %v", tag, err))
 		return
 	}
-	defer func() { _ = rows.Close() }()
-
-	// Build message info structures
-	type uidMessageInfo struct {
-		messageID    int64
-		uid          int
-		seqNum       int
-		flags        string
-		internalDate string
-	}
-
-	var messages []uidMessageInfo
-	for rows.Next() {
-		var msg uidMessageInfo
-		err := rows.Scan(&msg.messageID, &msg.uid, &msg.flags, &msg.internalDate, &msg.seqNum)
-		if err != nil {
-			continue
-		}
-		messages = append(messages, msg)
-	}
-
-	// Evaluate search criteria - returns matching UIDs
 	var matchingUIDs []string
-	criteriaUpper := strings.ToUpper(searchCriteria)
-
-	if criteriaUpper == "ALL" {
-		for _, msg := range messages {
-			matchingUIDs = append(matchingUIDs, strconv.Itoa(msg.uid))
-		}
-	} else if strings.Contains(criteriaUpper, "UID ") {
-		// Extract UID range
-		parts := strings.Fields(searchCriteria)
-		for i, part := range parts {
-			if strings.ToUpper(part) == "UID" && i+1 < len(parts) {
-				uidRange := parts[i+1]
-				if strings.Contains(uidRange, ":") {
-					rangeParts := strings.Split(uidRange, ":")
-					if len(rangeParts) == 2 {
-						start, _ := strconv.Atoi(rangeParts[0])
-						end, _ := strconv.Atoi(rangeParts[1])
-						for _, msg := range messages {
-							if msg.uid >= start && msg.uid <= end {
-								matchingUIDs = append(matchingUIDs, strconv.Itoa(msg.uid))
-							}
-						}
-					}
-				}
-				break
-			}
-		}
-	} else {
-		// Default: return all UIDs
-		for _, msg := range messages {
-			matchingUIDs = append(matchingUIDs, strconv.Itoa(msg.uid))
-		}
+	for _, uid := range uids {
+		matchingUIDs = append(matchingUIDs, strconv.FormatInt(uid, 10))
 	}
 
 	// Return matching UIDs
